@@ -39,6 +39,13 @@ FAULTS = {
     'not-of-call-result': 'not mkstr(3)',
     'and-of-call-result': 'mkstr(4) && true',
     'copy-field-from-call-result': 'base{x = mkstr(5)}',
+    # faults whose blamed operand was *selected* from a composite defined in an earlier statement
+    'cast-of-selected-field': 'int(cfg.port)',
+    'cast-of-selected-element': 'int(cfg.names.1)',
+    'add-selected-field': '1 + cfg.port',
+    'not-of-selected-field': 'not cfg.port',
+    # a function reached through a selector whose body faults: the calling statement must be in the call stack
+    'call-through-selector-faults': 'cfg.conv("abc")',
 }
 SLOTS = {
     'direct': '{F}',
@@ -48,7 +55,7 @@ SLOTS = {
     'select-arm': 'select ("w", 0) => {\n    w = {F},\n}',
     'binary-right': '1 +\n    ({F})',
 }
-PRELUDE = 'let base = {\n    x = 1,\n    y = [1, 2, 3],\n};\nlet ident = func (p) =>\n    p;\nlet mkstr = func (p) =>\n    "zz";\n'
+PRELUDE = 'let base = {\n    x = 1,\n    y = [1, 2, 3],\n};\nlet ident = func (p) =>\n    p;\nlet mkstr = func (p) =>\n    "zz";\nlet cfg = {\n    port = "eighty",\n    names = ["a", "b"],\n    conv = func (p) =>\n        int(p),\n};\n'
 EXTRA = 'let pad1 = 1;\nlet pad2 = {\n    q = 2,\n};\n'
 
 
@@ -82,6 +89,12 @@ def make_program(fault, slot, where, extra_before):
         n = s.count('\n')
         spans.append((line, line + n - 1))
         line += n
+    if fault == 'call-through-selector-faults' and where != 'func-body':
+        # the fault is inside cfg.conv (defined in the prelude); the statement written here is the *calling* statement
+        pl = pre.split('\n')
+        a = pl.index('let cfg = {') + 1
+        z = a + pl[a - 1:].index('};')
+        return pre + ''.join(stmts), (a, z), spans[fault_idx]
     return pre + ''.join(stmts), spans[fault_idx], (spans[call_idx] if call_idx is not None else None)
 
 
@@ -96,7 +109,13 @@ def cases(tier):
     for fault in faults:
         for slot in SLOTS:
             for where in ('first', 'middle', 'last', 'func-body'):
-                if tier == 'quick' and where in ('first',) and slot not in ('direct', 'tuple-field'):
+                if tier == 'quick':
+                    # every fault kind in three slots and two placements; one fault kind per slot keeps the other slots covered
+                    k = faults.index(fault)
+                    if not ((slot in ('direct', 'call-argument') and where in ('middle', 'func-body')) or (slot == 'tuple-field' and where == 'last')
+                            or (list(SLOTS).index(slot) == k % len(SLOTS) and where == 'first')):
+                        continue
+                if fault == 'call-through-selector-faults' and where == 'func-body':
                     continue
                 cs.append({'fam': 'eval', 'fault': fault, 'slot': slot, 'where': where})
     for name, text in SYNTAX:
